@@ -142,7 +142,8 @@ func (k Keeper) PlaceBid(ctx context.Context, msg *types.MsgPlaceBid) (types.Bid
 			return types.Bid{}, err
 		}
 
-		bid.SetMatched(true)
+		// A bid that converts to no selling coin at all receives nothing at settlement
+		bid.SetMatched(bidSellingAmt.IsPositive())
 
 	case types.BidTypeBatchWorth:
 		if err := k.ValidateBatchWorthBid(ctx, auction, bid); err != nil {
